@@ -255,6 +255,11 @@ class Interp:
         if dd is not None:
             return self._commit(cond, dd)
         w = self.ctx.weval(cond)
+        if self.opts.get('concolic') is not None:
+            # probe pass: follow the concrete candidate only (no alternatives, no solver); a branch the candidate cannot decide ends the pass
+            if w is True or w is False:
+                return self._commit(cond, w)
+            raise Infeasible()
         if w is True or w is False:
             # the witness satisfies one side: that side is feasible; the other gets one short query
             # (or none at all in lazy mode: it is explored and judged by the checks made on it)
@@ -301,6 +306,8 @@ class Interp:
     def set_hint(self, values):
         """concrete witness values for the inputs, used only to speed up feasibility queries"""
         self.hint_values = dict(values)
+        if self.opts.get('concolic') is not None:
+            self.hint_values.update(self.opts['concolic'])          # probe pass: the candidate's values take precedence
         self.ctx.set_witness(self.hint_values)
 
     def choose(self, n, label=''):
